@@ -187,7 +187,10 @@ def main():
             return I.call_user(P.fns["line_char_to_offset"], [Str(s), Int(ln, 64, False), Int(ch, 64, False)])
         rs = explore(runc, max_paths=50)
         real = ask({"src": s, "op": "to_offset", "line": ln, "character": ch})
-        enc = rs[0].value.v if (len(rs) == 1 and rs[0].kind == "ok" and isinstance(rs[0].value, Int) and rs[0].value.conc) else None
+        enc = None
+        if len(rs) == 1 and rs[0].kind == "ok":
+            rv = rs[0].value
+            enc = rv.v if (isinstance(rv, Int) and rv.conc) else (rv if isinstance(rv, int) else None)
         if enc != real:
             C.validation_mismatch(f"line_char_to_offset({s!r},{ln},{ch}): encoding {enc}, real {real}")
         else:
